@@ -184,7 +184,7 @@ func soloMain(f flags, rest []string) int {
 		return 2
 	}
 	if f.str("c20-solo-outcomes", "") != "" {
-		c20SoloOutcomes(t)
+		c20SoloOutcomes(t, f.int("only", -1))
 		return 0
 	}
 	if f.str("gen-only", "") != "" {
